@@ -34,6 +34,7 @@ inductive Plan (Rule : Type) where
   | generic (row : Row)    -- translation failed: generic DWARF evaluation
   | pe (p : PePlan)        -- PE epilog simulation / operation interpreter
   | staticErr              -- an error that does not depend on the thread state
+  | panic                  -- the format-specific code panics (before looking at registers)
 
 structure Arch where
   Rule : Type
@@ -47,6 +48,8 @@ structure Arch where
   (`none`: PE is not supported on this architecture), and the dynamic part. -/
   pePlan : List PeFunc → Nat → Bool → Option (PePlan × Option Rule)
   peRun : PePlan → Bool → Regs → Mem → GenOut Regs
+  /-- Compact unwind info: the dispatch for this architecture (`none` = panic). -/
+  cui : CuiData (CuiOpX64 × CuiOpA64) → Nat → Bool → Option (CuiRes Rule)
 
 def archX64 : Arch where
   Rule := RuleX64
@@ -60,6 +63,8 @@ def archX64 : Arch where
     let p := FH.pePlan funcs rel first
     some (p, match p with | .exec r => some r | _ => none)
   peRun := FH.peRun
+  cui := fun d rel first =>
+    cuiDispatch d (fun op => cuiUnwindX64 op.1) .justReturn .justReturn stubHelperRuleX64 rel first
 
 def archA64 : Arch where
   Rule := RuleA64
@@ -71,11 +76,35 @@ def archA64 : Arch where
   generic := genericA64
   pePlan := fun _ _ _ => none
   peRun := fun _ _ _ _ => .err .couldNotRecoverCfa
+  cui := fun d rel first =>
+    cuiDispatch d (fun op => cuiUnwindA64 op.2) .noOp .noOp stubHelperRuleA64 rel first
+
+/-- `unwind_frame_with_fde` once the FDE is known: its row for the address, translated if
+possible; an address the FDE does not cover gets the architecture's "uncovered" rule. -/
+def planForFde (A : Arch) (fde : Fde) (svma : Nat) : Plan A.Rule :=
+  match fde.rowFor svma with
+  | none => .exec A.uncovered
+  | some r =>
+    match A.translate r with
+    | some rule => .exec rule
+    | none => .generic r
 
 /-- `unwind_frame_impl` up to the point where registers are consulted. -/
 def plan (A : Arch) (m : Module) (rel : Nat) (_first : Bool) : Plan A.Rule :=
   match m.data with
   | .none => .staticErr
+  | .macho d eh =>
+    match A.cui d rel _first with
+    | none => .panic
+    | some .err => .staticErr
+    | some (.exec r) => .exec r
+    | some (.needDwarf fdeOff) =>
+      match eh with
+      | none => .staticErr                        -- `NoDwarfData`
+      | some fdes =>
+        match fdes.find? (fun p => p.1 = fdeOff) with
+        | none => .staticErr                      -- `FdeFromOffsetFailed`
+        | some (_, fde) => planForFde A fde (m.baseSvma + rel)
   | .dwarf pres fdes =>
     match dwarfLookup pres fdes m.baseSvma rel with
     | .noData => .staticErr
@@ -157,6 +186,7 @@ def missPath (A : Arch) (u : Unw) (addr : FrameAddr) (regs : A.Regs) (mem : Mem)
       match plan A m rel first with
       | .exec r => (some r, A.exec r first regs mem)
       | .staticErr => (some A.fallback, A.exec A.fallback first regs mem)
+      | .panic => (none, .panic (.other 5))
       | .generic row =>
         match A.generic row first regs mem with
         | .ok ra regs' => (none, .ret (resOfRa ra) regs')
@@ -198,6 +228,7 @@ def touchesSections (A : Arch) (N : Nat) (u : Unw) (c : Cache A.Rule) (addr : Fr
         | .none => false
         | .dwarf _ _ => true
         | .pe _ => true
+        | .macho _ _ => true
 
 /-! ## Iterator (`UnwindIterator`) -/
 
